@@ -695,8 +695,23 @@ func (env *Zlisp) LoadExpressions(xs []Sexp) error {
 	if !env.ReachedEnd() {
 		gen.AddInstruction(PopInstr(0))
 	}
+	// defmac installs its macro while the text is being compiled. A text
+	// that does not compile never runs and defines nothing: put the
+	// macro table back as it was.
+	savedMacros := make(map[int]*SexpFunction, len(env.macros))
+	for num, mac := range env.macros {
+		savedMacros[num] = mac
+	}
 	err := gen.GenerateBegin(expressions)
 	if err != nil {
+		for num := range env.macros {
+			if _, was := savedMacros[num]; !was {
+				delete(env.macros, num)
+			}
+		}
+		for num, mac := range savedMacros {
+			env.macros[num] = mac
+		}
 		return err
 	}
 
